@@ -20,18 +20,21 @@ PAGE = 4096
 def build(ctx):
     lib = vlib.build_lib()
     fl = vlib.lib_cflags() + ["-O0", "-g", "-Wl,-z,now"]
-    key = vlib.repo_src_hash("src")[:12]
-    unit = vlib.cc(os.path.join(ctx.dir, "c12_unit_" + key), [os.path.join(vlib.VERIF, "harness", "c12_unit.c")],
-                   flags=fl, libs=[lib, "-lpthread", "-ldl", "-lrt"])
-    libx = vlib.cc(os.path.join(ctx.dir, "c12_lib_" + key), [os.path.join(vlib.VERIF, "harness", "c12_lib.c")],
-                   flags=fl, libs=[lib, "-lpthread", "-ldl", "-lrt"])
+    key = vlib.sha(vlib.repo_src_hash("src"), vlib.repo_src_hash("include"),
+                   vlib.file_sha(os.path.join(vlib.VERIF, "harness", "c12_unit.c")),
+                   vlib.file_sha(os.path.join(vlib.VERIF, "harness", "c12_lib.c")))[:12]
+    d = os.path.join(ctx.dir, "bin", key)          # one directory per source tree + harness version
+    unit, libx = os.path.join(d, "c12_unit"), os.path.join(d, "c12_lib")
+    with vlib.Lock("c12-bin-" + key):
+        if not (os.path.exists(unit) and os.path.exists(libx)):
+            vlib.cc(unit + ".tmp", [os.path.join(vlib.VERIF, "harness", "c12_unit.c")], flags=fl,
+                    libs=[lib, "-lpthread", "-ldl", "-lrt"])
+            vlib.cc(libx + ".tmp", [os.path.join(vlib.VERIF, "harness", "c12_lib.c")], flags=fl,
+                    libs=[lib, "-lpthread", "-ldl", "-lrt"])
+            os.rename(unit + ".tmp", unit)
+            os.rename(libx + ".tmp", libx)
+            vlib.prune_cache(os.path.join(ctx.dir, "bin"), keep=6)
     drv = vlib.build_driver("C12", "Extract_C12.v", "driver_C12.ml", VF[:4])
-    for f in os.listdir(ctx.dir):          # older harness binaries of other trees
-        if f.startswith(("c12_unit_", "c12_lib_")) and not f.endswith(key):
-            try:
-                os.remove(os.path.join(ctx.dir, f))
-            except OSError:
-                pass
     return unit, libx, drv
 
 
@@ -300,7 +303,7 @@ def gen_program(r, nthreads, style):
     return seq
 
 
-def run_program(libx, ops, nw, timeout=30):
+def run_program(libx, ops, nw, timeout=40):
     env = dict(os.environ, MYTH_NUM_WORKERS=str(nw))
     try:
         p = subprocess.run([libx] + ops, stdout=subprocess.PIPE, stderr=subprocess.PIPE, env=env, timeout=timeout,
@@ -567,7 +570,7 @@ def run(ctx):
     p, _, _ = vlib.run_lines([unit], ["params"])
     dsz = int(p[0].split()[2]) if p and p[0].startswith("params") else 416
     corpus_unit, corpus_progs = load_corpus()
-    n = 150 if not ctx.thorough else 1500
+    n = 200 if not ctx.thorough else 4000
     cases = corpus_unit + gen_unit(ctx, n) + gen_shist(ctx, n // 3, dsz)
     impl, model, diffs, ufail, rc1, rc2 = run_unit(ctx, unit, drv, cases)
     kinds = {}
@@ -582,19 +585,20 @@ def run(ctx):
 
     # whole-library programs
     progs = [("corpus", p) for p in corpus_progs]
-    plan = [("mix", 40), ("mix", 90), ("big", 25), ("churn", 400), ("mix", 150)] if not ctx.thorough else \
+    plan = [("mix", 40), ("mix", 90), ("big", 25), ("churn", 400), ("mix", 150), ("mix", 60), ("big", 40)] if not ctx.thorough else \
            [("mix", 40), ("mix", 90), ("big", 25), ("churn", 1200), ("mix", 150), ("mix", 300), ("big", 60),
-            ("churn", 600), ("mix", 200), ("mix", 120), ("big", 40), ("mix", 60)]
+            ("churn", 600), ("mix", 200), ("mix", 120), ("big", 40), ("mix", 60), ("mix", 250), ("churn", 900),
+            ("big", 80), ("mix", 180), ("mix", 30), ("mix", 400)]
     for style, nt in plan:
         progs.append((style, gen_program(r, nt, style)))
-    reps = 1 if not ctx.thorough else 3
+    reps = 2 if not ctx.thorough else 8
     lib_fail, model_rej, runs, nev, ninf = [], [], 0, 0, 0
     dist = {}
     ledger_lines, ledger_meta = [], []
     for style, ops in progs:
         for nw in (1, 2, 3, 4):
             for rep in range(reps):
-                if len(lib_fail) >= 3:
+                if len(lib_fail) >= 2:
                     continue          # enough failing inputs; do not spend the budget on hanging runs
                 rc, out, err = run_program(libx, ops, nw)
                 t = parse_trace(out)
